@@ -63,6 +63,13 @@ CLAIMED = {
          "named option; XML print/load round trips over metacharacters and typed-access literals are judged on the implementation's output.",
          "Lean kernel + three standard axioms; harness/driver; expat and boost::lexical_cast external; list-section merge and 'nothing else' tied by correspondence only (partial).",
          "6/C11"),
+ "C16": ("Lean 4 proof (the FIFO-of-edges breadth-first labelling assigns every reachable vertex its shortest-path hop count and labels nothing else, "
+         "for every graph and every adjacency order, by a queue invariant; explored set = reachable set; minimality) + exhaustive correspondence on all small graphs",
+         "Theorems cover distance labelling and, through the explored set, component decomposition and single-network detection. Label independence of the "
+         "structure id, separation by attributes and reduce/expand losslessness are decided by correspondence only: every labelled graph up to 5 vertices "
+         "(7 in the thorough tier) plus random larger graphs are pushed through the real Graph/ReducedGraph/BeadStructure code and compared with the model and an independent spec.",
+         "Lean kernel + three standard axioms; harness/driver; PARTIAL: structure-id and reduce/expand clauses have no theorem.",
+         "6/C16"),
 }
 REASONS = {}
 
